@@ -47,8 +47,8 @@ VARIANTS = [
          old="    except sqlalchemy_exc.IntegrityError as e:\n        session.rollback()\n        if ignore_integrity_error:",
          new="    except sqlalchemy_exc.IntegrityError as e:\n        if ignore_integrity_error:"),
     dict(id="c05-two-regions", prop="C05", file=RDB, expect="R05.4",
-         old="                if values is not None:\n                    for objective, v in enumerate(values):\n                        self._set_trial_value_without_commit(session, trial_id, objective, v)\n\n                if state == TrialState.RUNNING and trial.state != TrialState.WAITING:",
-         new="                if values is not None:\n                    with _create_scoped_session(self.scoped_session) as session2:\n                        for objective, v in enumerate(values):\n                            self._set_trial_value_without_commit(session2, trial_id, objective, v)\n\n                if state == TrialState.RUNNING and trial.state != TrialState.WAITING:"),
+         old="                if values is not None:\n                    for objective, v in enumerate(values):\n                        self._set_trial_value_without_commit(session, trial_id, objective, v)\n\n                trial.state = state",
+         new="                if values is not None:\n                    with _create_scoped_session(self.scoped_session) as session2:\n                        for objective, v in enumerate(values):\n                            self._set_trial_value_without_commit(session2, trial_id, objective, v)\n\n                trial.state = state"),
     dict(id="c05-release-not-in-finally", prop="C05", file=JF, expect="R05.5",
          old="    lock_obj.acquire()\n    try:\n        yield\n    finally:\n        lock_obj.release()\n",
          new="    lock_obj.acquire()\n    yield\n    lock_obj.release()\n"),
